@@ -184,7 +184,8 @@ theorem error_local (w : World) (c : Nat) (hc : w.cur = some c) (hd : w.dead.con
     (errorHandler w).hbs = rmFirst c w.hbs ∧ (errorHandler w).dead = w.dead ∧ (errorHandler w).known = w.known ∧
     (errorHandler w).cur = none := by
   have hsm : ¬ ((0 : Int) > shrtMax) := by decide
-  unfold errorHandler
+  rw [errorHandler_eq_ref]
+  unfold errorHandlerRef
   rw [hc]
   simp only [setHeartBeat_eq_ref]
   unfold setHeartBeatRef
